@@ -86,3 +86,11 @@ func VFConns(c *Cache) int { return len(c.conns) }
 
 // VFHasConn reports whether cid is registered for token reset fan-out.
 func VFHasConn(c *Cache, cid string) bool { _, ok := c.conns[cid]; return ok }
+
+// VFQueryOf returns the (normalised) query of a resource subscription.
+func VFQueryOf(rs *ResourceSubscription) string {
+	if rs == nil {
+		return ""
+	}
+	return rs.query
+}
